@@ -1,5 +1,6 @@
-// C20 implementation harness: new_subfs(recording underlay, base, false) built from the
-// working tree of the repo under test (libphoton.so of that tree); drives every
+// C20 implementation harness: new_subfs(recording underlay, base, false); fs/subfs.cpp, fs/path.cpp
+// (and common/iovector.cpp for SubFile) of the repo under test are compiled into this program
+// together with alog_stub.cpp; drives every
 // path-taking operation of SubFileSystem and prints what the underlay received.
 // Case / output format: see ocaml/C20_run.ml.
 #include <cstdio>
@@ -143,7 +144,7 @@ static bool drive(IFileSystem* fs, const std::string& op, const char* p1, const 
 }
 
 int main(int argc, char** argv) {
-    log_output_level = ALOG_FATAL + 3;          // PathCat logs every rejection at ERROR level
+    default_logger.log_level = ALOG_AUDIT + 10; // PathCat logs every rejection at ERROR level: silence
     std::ifstream in(argv[1]); std::string line;
     while (std::getline(in, line)) {
         if (line.empty() || line[0] == '#') continue;
